@@ -16,7 +16,7 @@ pub fn generate(prop: &str, r: &mut Rng, id: usize, thorough: bool) -> Group {
         "C01" => gen_c01(r, id, thorough),
         "C02" => gen_c02(r, id, thorough),
         "C03" => gen_c03(r, id),
-        "C04" => if r.chance(8) { gen_c04_arith(r, id) } else if r.chance(7) { gen_c04_order_long(r, id) } else { crate::oracle_b::gen_c04(r, id) },
+        "C04" => if r.chance(8) { gen_c04_arith(r, id) } else if r.chance(7) { gen_c04_order_long(r, id) } else if r.chance(4) { gen_c04_strings(r, id) } else { crate::oracle_b::gen_c04(r, id) },
         "C05" => gen_c05(r, id, thorough),
         "C06" => gen_c06(r, id),
         "C07" => gen_c07(r, id, thorough),
@@ -176,6 +176,29 @@ pub fn gen_c04_arith(r: &mut Rng, id: usize) -> Group {
     g.nontrivial = true;
     g.labels.push("kind:arith-illtyped".into());
     g.labels.push(format!("fn:{f}"));
+    g
+}
+
+/// C04: the string functions on lists with EMPTY strings at the start, in the middle, at the end, alone, and with empty
+/// separators: `join` puts the separator between ALL items, `split` and `join` are inverse, `concat` skips nothing
+pub fn gen_c04_strings(r: &mut Rng, id: usize) -> Group {
+    let n = r.range(0, 6);
+    let items: Vec<String> = (0..n).map(|_| r.ps(&["", "", "a", "b", "é", " ", ","]).to_string()).collect();
+    let sep = r.ps(&["-", "", ", ", ":", "é"]).to_string();
+    let q = |t: &str| value::render(&V::Str(t.to_string()));
+    let rec = format!("{{\"l\":[{}],\"s\":{}}}", items.iter().map(|x| q(x)).collect::<Vec<_>>().join(","), q(&sep));
+    let mut c = case(format!("C04-{id}-strings"));
+    c.spec.selects.push("(join .l .s)=j".into());
+    c.spec.selects.push("(join .l)=d".into());
+    c.spec.selects.push("(concat (join .l .s) \"\" .s)=c".into());
+    c.spec.selects.push("(size (join .l .s))=n".into());
+    c.spec.utf8 = true;
+    c.sources.push(stdin_src(rec.into_bytes()));
+    let mut g = Group::new(vec![c]);
+    g.tag = format!("strings\u{1}{}\u{1}{}", sep, items.join("\u{2}"));
+    g.values = vec![V::Int(n as i128)];
+    g.nontrivial = true;
+    g.labels.push("kind:string-lists".into());
     g
 }
 
@@ -347,6 +370,32 @@ pub fn gen_c05(r: &mut Rng, id: usize, thorough: bool) -> Group {
     let fixed = c05_grid_size() + c05_regex_grid_size();
     if thorough && id < fixed + c05_exhaustive_size() {
         return gen_c05_exhaustive(id - fixed);
+    }
+    if r.chance(5) {
+        // \uXXXX escapes of every class and every pair of classes (high surrogate, low surrogate, BMP, bad hex, cut short), as
+        // strings, member names and through `parse`
+        let classes = ["\\ud83d", "\\ude00", "\\u00e9", "\\ud800", "\\udbff", "\\udc00", "\\udfff", "\\u12g4", "\\u12", "\\uD83D", "\\u0000", "\\uffff", "a", ""];
+        let a = r.pick(&classes);
+        let b = r.pick(&classes);
+        let tail = r.ps(&["", "x", "\\n", "\\"]);
+        let lit = format!("\"{a}{b}{tail}\"");
+        let mut c = case(format!("C05-{id}"));
+        c.spec.on_error = Some(r.ps(&["ignore", "panic", "stderr", "stdout"]).to_string());
+        match r.below(4) {
+            0 => c.sources.push(stdin_src(format!("{lit} 1").into_bytes())),
+            1 => c.sources.push(stdin_src(format!("[{lit}, {{{lit}: {lit}}}] 2").into_bytes())),
+            2 => {
+                c.spec.selects.push("(parse .)=x".into());
+                c.sources.push(stdin_src(value::render(&V::Str(lit.replace("\\\\", "\\"))).into_bytes()));
+            }
+            _ => {
+                c.spec.selects.push(format!("(size {lit})=x"));
+                c.sources.push(stdin_src(b"1".to_vec()));
+            }
+        }
+        let mut g = Group::new(vec![c]);
+        g.labels.push("kind:unicode-escapes".into());
+        return g;
     }
     if r.chance(6) {
         // more than 20 numbers around the edges of u64 / i64 / 2^53, where integer and double comparison meet:
@@ -2103,7 +2152,12 @@ pub fn gen_c20(r: &mut Rng, id: usize) -> Group {
         bytes.extend_from_slice(value::render(v).as_bytes());
         bytes.push(b'\n');
         if r.chance(30) {
-            bytes.extend_from_slice(&garbage_token(r));
+            if r.chance(35) {
+                // a malformed VALUE rather than a stray byte: every syntax error is recoverable under the lenient policies
+                bytes.extend_from_slice(r.ps(&["tru", "[1,]", "{\"a\" 1}", "\"\\ud800\"", "\"\\ud83d\\ude00\"", "\"\\udc00x\"", "\"\\u12g4\"", "-", "{\"a\":}", "[1 2]", "nul", "\"\\x\"", "1e", "\"\\ud83d\\u00e9\""]).as_bytes());
+            } else {
+                bytes.extend_from_slice(&garbage_token(r));
+            }
             bytes.push(b' ');
             noise += 1;
         }
@@ -2759,6 +2813,32 @@ pub fn oracle(prop: &str, g: &Group, obs: &[Obs]) -> Option<String> {
             None
         }
         "C03" | "C06" | "C07" => crate::oracle_a::oracle(prop, g, obs),
+        "C04" if g.tag.starts_with("strings\u{1}") => {
+            let (c, o) = (&g.cases[0], &obs[0]);
+            if o.res != "ok" {
+                return Some(format!("{}: run gave {} {}", c.id, o.res, o.panic_msg));
+            }
+            let parts: Vec<&str> = g.tag.split('\u{1}').collect();
+            let sep = parts[1];
+            let n = match g.values.first() { Some(V::Int(i)) => *i as usize, _ => 0 };
+            let items: Vec<&str> = if n == 0 { vec![] } else { parts[2].split('\u{2}').collect() };
+            let row = parse_rows(&o.out, "\n").ok()?.into_iter().next()?;
+            let want = items.join(sep);
+            let s = |k: &str| match get_key(&row, k) { Some(V::Str(x)) => Some(x.clone()), _ => None };
+            if s("j").as_deref() != Some(want.as_str()) {
+                return Some(format!("{}: (join {:?} {:?}) is {:?}; the items with the separator between all of them are {:?}", c.id, items, sep, s("j"), want));
+            }
+            if s("d").as_deref() != Some(items.join(", ").as_str()) {
+                return Some(format!("{}: (join {:?}) with the default separator is {:?}", c.id, items, s("d")));
+            }
+            if s("c").as_deref() != Some(format!("{want}{sep}").as_str()) {
+                return Some(format!("{}: concat of the joined text, an empty string and the separator is {:?}", c.id, s("c")));
+            }
+            if get_key(&row, "n") != Some(&V::Int(want.chars().count() as i128)) {
+                return Some(format!("{}: size of the joined text is {:?} for {:?}", c.id, get_key(&row, "n").map(value::render), want));
+            }
+            crate::oracle_b::oracle(prop, g, obs)
+        }
         "C04" if g.labels.iter().any(|l| l == "kind:order-long") => {
             // element order: whatever the function, elements that carry an arrival index `i` and compare equal on `k`
             // must keep their arrival order (sort_by / order_by: stable; filter / map / group_by / take / sub: order kept)
